@@ -1,12 +1,14 @@
 """C13 — conversion leaves the host process as it found it.
 Proof: coq/props/C13.v over coq/theories/Patch.v (hand-written executable model of apply_patches,
-apply_monkey_patches, the x64 managers and the jit trace cache).
-Ties: (D) model == the running apply_patches / apply_monkey_patches on synthetic targets with a
-fault at every position; the model run on the REAL spec list of this run predicts exactly the
-attribute leaks the real process shows; side conditions of the theorems evaluated on that list.
-Real process (worker subprocess): getattr_static snapshot of the jax*/flax*/equinox* namespace,
+apply_monkey_patches, the x64 managers and the jit trace cache, in two CODE SHAPES: /repo since
+commit b0781c1 — exact restoration, PART F — and before it — PART L).
+Ties: the shape of the running code is probed; (D) model(shape) == the running apply_patches /
+apply_monkey_patches on synthetic targets with a fault at every position; the model run on the REAL
+spec list of this run predicts exactly the attribute changes the real process shows; for the old
+shape the side conditions of PART L are evaluated on that list.
+Real process (worker subprocesses): getattr_static snapshot of the jax*/flax*/equinox* namespace,
 x64 flag, user model leaves and behavioural probes across a random history of succeeding and
-failing conversions."""
+failing conversions; an exception inside the enter loop of apply_monkey_patches."""
 import json
 import os
 import subprocess
@@ -991,8 +993,10 @@ def gen_amp_case(rng, ci):
     for si in range(rng.randint(1, 4)):
         gidx += 1
         ai = rng.randrange(len(ATTRS))
-        tis = [rng.randrange(len(targets)) for _ in range(rng.choice([1, 1, 2]))]
-        raising = rng.random() < 0.12
+        resolvable = [i for i, t in enumerate(targets) if getattr(t, ATTRS[ai], MISSING) is not MISSING]
+        tis = [rng.choice(resolvable) if resolvable and rng.random() < 0.9 else rng.randrange(len(targets))
+               for _ in range(rng.choice([1, 1, 2]))]
+        raising = rng.random() < 0.08
         base = 10000 * gidx
         if raising:
             def fn(orig):
@@ -1013,8 +1017,11 @@ def gen_amp_case(rng, ci):
     before = _observe(targets)
     ps._PATCH_STATE.clear()
 
+    reached = [False]
+
     def rec(d):
         if d == 0:
+            reached[0] = True
             if body_raises:
                 raise _BodyError()
             return
@@ -1031,22 +1038,65 @@ def gen_amp_case(rng, ci):
     for ti, t in enumerate(targets):
         for ai, a in enumerate(ATTRS):
             st = ps._PATCH_STATE.get((t, a))
-            psafter.append((ti, ai, None if st is None else (st["orig"].id, st["count"])))
+            psafter.append((ti, ai, None if st is None else (st["orig"].id, st["count"], bool(st.get("owned", True)))))
     leaked_state = len(ps._PATCH_STATE)
     ps._PATCH_STATE.clear()
     lit = ("(" + _lst(f"({i},{_lst(map(str, m))})" for i, m in enumerate(mro)) + ", "
            + _lst(f"({t},{a},{v}%N)" for (t, a, v) in own) + ", "
            + _lst(f"({t},{a},{p})" for (t, a, p) in ks_model) + ", " + str(depth) + "%nat, "
            + ("false" if body_raises else "true") + ", " + _obs_lit(after) + ", "
-           + _lst(f"({t},{a},{'None' if e is None else f'(Some ({e[0]}%N,{e[1]}%Z))'})" for (t, a, e) in psafter) + ", " + oc + ")")
+           + _lst(f"({t},{a},{'None' if e is None else f'(Some ({e[0]}%N,{e[1]}%Z,{_b(e[2])}))'})" for (t, a, e) in psafter) + ", " + oc + ")")
     missing_key = any(getattr(targets[t], ATTRS[a], MISSING) is MISSING for (t, a, _p) in ks_model)
-    info = {"depth": depth, "keys": len(ks_model), "body_raises": body_raises, "enter_fault": leaked_state > 0,
+    info = {"depth": depth, "keys": len(ks_model), "body_raises": body_raises, "enter_fault": not reached[0],
             "perfect": after == before and leaked_state == 0, "outcome": oc,
             "lookup_restored": [x[3] for x in after] == [x[3] for x in before],
             "model": {"mro": mro, "own": own, "keys": ks_model, "depth": depth, "body_raises": body_raises},
             "before": before, "after": after,
             "dups": len(ks_model) - len({(t, a) for (t, a, _p) in ks_model})}
     return lit, info
+
+
+def probe_code_shape():
+    """which shape of the patch code is running (Patch.v: fixed = true since /repo b0781c1).
+    -> (apply_patches restores an unowned attribute by delattr?, apply_monkey_patches likewise?,
+        apply_monkey_patches unwinds when its enter loop raises?)"""
+    from unittest import mock
+    from jax2onnx.plugins import plugin_system as ps
+    from jax2onnx.plugins._patching import AssignSpec, apply_patches
+
+    def fresh():
+        P = type("P", (), {"a": Val(1)})
+        C = type("C", (P,), {})
+        return P, C
+    _P, C = fresh()
+    with apply_patches([AssignSpec(C, "a", Val(2))]):
+        pass
+    p_del = "a" not in vars(C)
+    P2, C2 = fresh()
+
+    class _Stub:
+        pass
+    ok_stub, bad_stub = _Stub(), _Stub()
+    ok_stub.patch_info = lambda: {"patch_targets": [C2], "patch_function": lambda o: Val(3), "target_attribute": "a"}
+    bad_stub.patch_info = lambda: {"patch_targets": [P2], "patch_function": lambda o: Val(4), "target_attribute": "missing_attr"}
+    ps._PATCH_STATE.clear()
+    with mock.patch.dict(ps.PLUGIN_REGISTRY, {"c13_probe_ok": ok_stub}, clear=True):
+        with ps.apply_monkey_patches():
+            pass
+    a_del = "a" not in vars(C2)
+    _P3, C3 = fresh()
+    ok_stub.patch_info = lambda: {"patch_targets": [C3], "patch_function": lambda o: Val(3), "target_attribute": "a"}
+    bad_stub.patch_info = lambda: {"patch_targets": [C3], "patch_function": lambda o: Val(4), "target_attribute": "missing_attr"}
+    ps._PATCH_STATE.clear()
+    with mock.patch.dict(ps.PLUGIN_REGISTRY, {"c13_probe_ok": ok_stub, "c13_probe_bad": bad_stub}, clear=True):
+        try:
+            with ps.apply_monkey_patches():
+                pass
+        except AttributeError:
+            pass
+    a_unwinds = getattr(C3, "a").id == 1 and not ps._PATCH_STATE
+    ps._PATCH_STATE.clear()
+    return p_del, a_del, a_unwinds
 
 
 def x64_cases():
@@ -1132,8 +1182,9 @@ def run(ctx):
     ctx.trusted_base = [
         "Coq 8.16.1 kernel; vm_compute (no native_compute); all C13 theorems closed under the global context (no axioms)",
         "theories/Patch.v is a HAND-WRITTEN model of _patching.apply_patches, plugin_system.apply_monkey_patches, "
-        "_temporary_x64/_force_jax_x64 and of jax.jit's trace cache; it is tied to the running code by the obligations "
-        "tie:* of this run (differential execution on synthetic targets with a fault at every position, and on the real spec list)",
+        "_temporary_x64/_force_jax_x64 and of jax.jit's trace cache, in two code shapes (since / before /repo b0781c1); the shape "
+        "is probed on this run and the model is tied to the running code by the obligations tie:* (differential execution on "
+        "synthetic targets with a fault at every position, and on the real spec list)",
         "Python attribute semantics assumed by the model: getattr = first own entry along [obj] + MRO; setattr/delattr act on "
         "the own dict; no descriptors / metaclass fall-back / module __getattr__ on patched keys (checked per key on this run)",
         "inspect.getattr_static, jax.tree_util (observation of the real process)",
@@ -1154,6 +1205,19 @@ def run(ctx):
     # ---- (a) proofs
     common.build_props(ctx, "C13", [])
 
+    # ---- code shape (Patch.v models the code before and since /repo b0781c1)
+    p_del, a_del, a_unw = probe_code_shape()
+    fixed_p, fixed_a = p_del, (a_del and a_unw)
+    mixed_amp = (a_del != a_unw)
+    ctx.coverage["code_shape"] = {
+        "apply_patches": "since b0781c1 (owned recorded, unowned restored by delattr)" if fixed_p else "before b0781c1 (setattr of the saved getattr value)",
+        "apply_monkey_patches": ("since b0781c1 (enter loop inside try, unowned restored by delattr)" if fixed_a else
+                                 "before b0781c1" if not (a_del or a_unw) else f"mixed: delattr={a_del}, enter loop unwound={a_unw}"),
+        "theorems_that_apply": ("PART F (exact restoration, no side condition)" if fixed_p and fixed_a else
+                                "PART L (restoration up to materialisation under no_inherited_clash / mro_coherent / completed enter loop)")}
+    ctx.oblige("tie:code-shape-is-one-the-model-knows", not mixed_amp, "tie",
+               "" if not mixed_amp else f"apply_monkey_patches: delattr for unowned={a_del} but enter loop unwound={a_unw}")
+
     # ---- (b) tie D: model == running code on synthetic targets
     n_p = 360 if quick else 8000
     n_a = 160 if quick else 3000
@@ -1165,11 +1229,11 @@ def run(ctx):
     for chunk0 in range(0, max(len(pc), len(ac)), 450):
         txt = COQ_HEADER
         txt += "Definition pcs : list pcase := " + _lst(l for l, _ in pc[chunk0:chunk0 + 450]) + ".\n"
-        txt += "Eval vm_compute in bad_idx_ pcase_ok 0 pcs.\n"
-        txt += "Eval vm_compute in bad_idx_ pcase_ok_tol 0 pcs.\n"
+        txt += f"Eval vm_compute in bad_idx_ (pcase_ok {_b(fixed_p)}) 0 pcs.\n"
+        txt += f"Eval vm_compute in bad_idx_ (pcase_ok_tol {_b(fixed_p)}) 0 pcs.\n"
         txt += "Definition acs : list acase := " + _lst(l for l, _ in ac[chunk0:chunk0 + 450]) + ".\n"
-        txt += "Eval vm_compute in bad_idx_ acase_ok 0 acs.\n"
-        txt += "Eval vm_compute in bad_idx_ acase_ok_tol 0 acs.\n"
+        txt += f"Eval vm_compute in bad_idx_ (acase_ok {_b(fixed_a)}) 0 acs.\n"
+        txt += f"Eval vm_compute in bad_idx_ (acase_ok_tol {_b(fixed_a)}) 0 acs.\n"
         if chunk0 == 0:
             def xl(c):
                 which, prev, en, sets, raises, seen, after, oc = c
@@ -1262,20 +1326,18 @@ def run(ctx):
                not inadequate_scope, "tie", "" if not inadequate_scope else f"getattr is not an MRO dict scan for {inadequate_scope[:6]}")
     own_l = [(o[0], o[1], o[2]) for o in obs0 if o[2] is not None]
     frames_m = []
+    amp_m = []
     g = 0
-    if d["amp"]:
-        fr = []
-        for (t, a) in d["amp"]:
-            g += 1
-            fr.append(("monkey", t, a, 1000000 * g))
-        frames_m.append(fr)
+    for (t, a) in d["amp"]:
+        g += 1
+        amp_m.append(("monkey", t, a, 1000000 * g))
     for fr0 in d["frames"]:
         fr = []
         for (t, a, kind, _n) in fr0:
             g += 1
             fr.append(("assign", t, a, 1000000 * g) if kind == "assign" else ("monkey", t, a, 1000000 * g))
         frames_m.append(fr)
-    keys_flat = [(s[1], s[2]) for fr in frames_m for s in fr]
+    keys_flat = [(s[1], s[2]) for s in amp_m] + [(s[1], s[2]) for fr in frames_m for s in fr]
     univ = [(o[0], o[1]) for o in obs0]
     inad_idx = {(o[0], o[1]) for o in obs0 if not o[4]}
 
@@ -1287,8 +1349,9 @@ def run(ctx):
     txt += "Definition ol : list (target * attr * value) := " + _lst(f"({t},{a},{v}%N)" for (t, a, v) in own_l) + ".\n"
     txt += "Definition univ : list key := " + _lst(f"({t},{a})" for (t, a) in univ) + ".\n"
     txt += "Definition ks : list key := " + _lst(f"({t},{a})" for (t, a) in keys_flat) + ".\n"
+    txt += f"Definition ampl : list spec_d := {_lst(_spec_lit(s) for s in amp_m)}.\n"
     txt += f"Definition fr0 := {frames_lit()}.\n"
-    txt += "Eval vm_compute in predicted_diffs ml ol fr0 univ.\n"
+    txt += f"Eval vm_compute in predicted_diffs {_b(fixed_a)} {_b(fixed_p)} ml ol ampl fr0 univ.\n"
     txt += "Eval vm_compute in real_clashes ml ol ks.\n"
     txt += "Eval vm_compute in real_incoherent ml ol ks univ.\n"
     nonempty = [i for i, fr in enumerate(frames_m) if fr]
@@ -1298,7 +1361,7 @@ def run(ctx):
         fvar.append((i, rng.choice([("BeforeSet", rng.randrange(len(frames_m[i]))), "InBody"])))
     for j, fv in enumerate(fvar):
         txt += f"Definition fr{j + 1} := {frames_lit(fv)}.\n"
-        txt += f"Eval vm_compute in fst (predicted_diffs ml ol fr{j + 1} univ).\n"
+        txt += f"Eval vm_compute in fst (predicted_diffs {_b(fixed_a)} {_b(fixed_p)} ml ol ampl fr{j + 1} univ).\n"
     t_c = time.time()
     ok, out = common.coq_eval_file(ctx, "c13_real_specs", txt, timeout=900)
     vals = _parse_coq_values(out) if ok else []
@@ -1328,13 +1391,19 @@ def run(ctx):
     end_lookup = {(o[0], o[1]): o[3] for o in hist["obs_end"]}
     still_fine = all(end_lookup.get(k) == o0[k][3] for k in clash_keys if k not in real_lookup)
     model_pessimistic = bool(better_p) and still_fine
-    ctx.oblige("side-condition:no_inherited_clash(real spec list) or every clash witnessed by a real leak",
-               not unwitnessed or model_pessimistic, "tie",
-               "" if not unwitnessed else f"patched ancestor before unowned inheriting key at {unwitnessed[:6]} but no leak observed"
-               + ("; the running apply_patches restores more than the model on the synthetic ties, so the side condition of the "
-                  "modelled code is no longer needed" if model_pessimistic else ""))
-    ctx.oblige("side-condition:mro_coherent(real spec list, every observed class and subclass)", not incoh, "tie",
-               "" if not incoh else f"materialising would shadow another base for {[nm(tuple(k)) for k in incoh[:6]]}")
+    if fixed_p and fixed_a:
+        # PART F: exact restoration needs neither side condition; what PART L would have required is recorded
+        ctx.oblige("side-condition:none-required-by-the-running-code-shape(PART F: exact restoration)", True, "tie",
+                   f"pre-b0781c1 conditions on this spec list, for the record: inherited clashes at {sorted(nm(k) for k in clash_keys)[:6]}, "
+                   f"incoherent MRO at {[nm(tuple(k)) for k in incoh[:6]]}")
+    else:
+        ctx.oblige("side-condition:no_inherited_clash(real spec list) or every clash witnessed by a real leak",
+                   not unwitnessed or model_pessimistic, "tie",
+                   "" if not unwitnessed else f"patched ancestor before unowned inheriting key at {unwitnessed[:6]} but no leak observed"
+                   + ("; the running apply_patches restores more than the model on the synthetic ties, so the side condition of the "
+                      "modelled code is no longer needed" if model_pessimistic else ""))
+        ctx.oblige("side-condition:mro_coherent(real spec list, every observed class and subclass)", not incoh, "tie",
+                   "" if not incoh else f"materialising would shadow another base for {[nm(tuple(k)) for k in incoh[:6]]}")
     fault_extra = []
     for j, fv in enumerate(fvar):
         extra = {tuple(k) for k in vals[4 + j]} - pred_lookup
@@ -1343,7 +1412,7 @@ def run(ctx):
     ctx.oblige(f"model-on-real-spec-list:faulted-activations-leak-nothing-more({len(fvar)} fault points)", not fault_extra, "tie",
                str(fault_extra[:3]))
     ctx.coverage["real_spec_list"] = {
-        "amp_keys": len(d["amp"]), "amp_duplicate_keys_dropped": d["amp_dups"], "leaf_plugin_frames": len(d["frames"]),
+        "amp_keys": len(d["amp"]), "pre-b0781c1_side_conditions_required": not (fixed_p and fixed_a), "amp_duplicate_keys_dropped": d["amp_dups"], "leaf_plugin_frames": len(d["frames"]),
         "leaf_specs": sum(len(f) for f in d["frames"]), "targets_in_universe": len(tn), "observed_keys": len(univ),
         "keys_not_owned_by_target": sum(1 for k in set(keys_flat) if o0.get(k) and o0[k][2] is None),
         "keys_missing_entirely": sum(1 for k in set(keys_flat) if o0.get(k) and o0[k][3] is None),
